@@ -148,10 +148,13 @@ def w_interstitial(arg):
             acc.check(ok, 'jump-dipoles-are-symmetric-projection-carried-by-symmetry', tag, sig=(t, 'jdip'))
             # elastodiffusion vs finite differences of the exact diffusivity under strain
             D0, Dp = d.elastodiffusion(pre, be, dip, preT, beT, dipT)
-            h = 1e-5; worst = 0.
+            # five-point stencil at h = 1e-3: truncation ~ h^4 f^(5) / 30 (1e-10 relative), roundoff of the ill-conditioned
+            # reference solve (rates spread over e^12) divided by h stays below 1e-8; a two-point 1e-5 stencil sat at the 1e-6 bound
+            h = 1e-3; worst = 0.
             for a, b in itertools.combinations_with_replacement(range(dim), 2):
                 eps = np.zeros((dim, dim)); eps[a, b] += 0.5; eps[b, a] += 0.5
-                fdD = (D_spec(d, pre, be, preT, beT, h * eps, sd, jd) - D_spec(d, pre, be, preT, beT, -h * eps, sd, jd)) / (2 * h)
+                Ds_ = lambda x: D_spec(d, pre, be, preT, beT, x * eps, sd, jd)
+                fdD = (8 * (Ds_(h) - Ds_(-h)) - (Ds_(2 * h) - Ds_(-2 * h))) / (12 * h)
                 got = 0.5 * (Dp[:, :, a, b] + Dp[:, :, b, a])
                 worst = max(worst, np.abs(got - fdD).max())
             acc.check(worst <= 1e-6 * max(np.abs(Dp).max(), sc), 'elastodiffusion-is-strain-derivative-of-diffusivity', '%s: %.2e' % (tag, worst / max(np.abs(Dp).max(), sc)), sig=(t, 'elasto'))
